@@ -1,6 +1,130 @@
 use std::process::exit;
 
+use std::path::{Path, PathBuf};
+use std::process::Command;
+use std::time::{Duration, Instant};
+
 use hv::core::{Run, Tier};
+use serde_json::{Value, json};
+
+use hv::core::wait_limit;
+
+fn self_exe() -> PathBuf {
+    std::env::current_exe().expect("current_exe")
+}
+
+use hv::core::{Confirm, confirm_case};
+
+fn write_supervisor_outcome(id: &str, tier: Tier, seed: u64, check: &str, case: &Value, observed: &str, wall: f64) -> PathBuf {
+    let dir = Path::new(hv::core::VERIF_DIR).join("replays");
+    let _ = std::fs::create_dir_all(&dir);
+    let path = dir.join(format!("{}-{}-{:016x}.json", id, check.replace(['/', ' '], "_"), hv::core::h64(&case.to_string())));
+    let _ = std::fs::write(&path, serde_json::to_string_pretty(&json!({"property": id, "check": check, "case": case, "observed": observed, "seed": seed, "tier": tier.name()})).unwrap());
+    // minimal evidence: the child did not live to write its own
+    let ev = json!({
+        "property_id": id, "tier": tier.name(), "seed": seed, "level": "exploration",
+        "coverage": {"evaluations": 1, "distinct_nontrivial": 0, "rule": "run ended by the supervisor", "samples": [hv::core::clip(case)],
+                     "explanation": observed},
+        "assumptions": [], "wall_s": wall, "violations": 1
+    });
+    let _ = std::fs::write(Path::new(hv::core::VERIF_DIR).join("evidence").join(format!("{id}.json")), serde_json::to_string_pretty(&ev).unwrap());
+    path
+}
+
+fn supervise(id: &str, tier: Tier, seed: u64) -> i32 {
+    use std::os::unix::process::ExitStatusExt;
+    let t0 = Instant::now();
+    let dir = Path::new(hv::core::VERIF_DIR).join("work").join(format!("{}-{}", id, std::process::id()));
+    let _ = std::fs::create_dir_all(&dir);
+    let limit = Duration::from_secs(
+        std::env::var("HV_WALL_LIMIT_S").ok().and_then(|s| s.parse().ok()).unwrap_or(match tier {
+            Tier::Quick => 3600,
+            Tier::Thorough => 6 * 3600,
+        }),
+    );
+    let mut child = match Command::new(self_exe())
+        .args(["check", id, tier.name()])
+        .env("HV_CHILD", "1")
+        .env("HV_INFLIGHT_DIR", &dir)
+        .spawn()
+    {
+        Ok(c) => c,
+        Err(e) => {
+            println!("INFRA: cannot spawn child: {e}");
+            return 2;
+        }
+    };
+    let st = wait_limit(&mut child, limit);
+    let code = (|| {
+        let Some(st) = st else {
+            println!("INCONCLUSIVE property={id} wall-clock limit of {} s reached; child killed", limit.as_secs());
+            return 2;
+        };
+        if let Some(code) = st.code() {
+            if code != 3 {
+                return code;
+            }
+            // hang reported by the child's watchdog
+            let marker = std::fs::read_to_string(dir.join("hang")).unwrap_or_default();
+            let mut it = marker.split_whitespace();
+            let slot: usize = it.next().and_then(|s| s.parse().ok()).unwrap_or(0);
+            let dl: u64 = it.next().and_then(|s| s.parse().ok()).unwrap_or(60_000);
+            let Some(v) = hv::core::read_slot(&dir, slot) else {
+                println!("INCONCLUSIVE property={id} watchdog fired but the in-flight case could not be read");
+                return 2;
+            };
+            let check = v["check"].as_str().unwrap_or("?").to_string();
+            println!("  watchdog: case in check {check} exceeded {dl} ms; confirming alone with a 4x deadline");
+            return match confirm_case(id, &check, &v["case"], Duration::from_millis(dl * 4)) {
+                Confirm::Timeout => {
+                    let p = write_supervisor_outcome(id, tier, seed, &check, &v["case"], &format!("hang: no result within {} ms (confirmed alone in a fresh process)", dl * 4), t0.elapsed().as_secs_f64());
+                    println!("  hang confirmed: {}", hv::core::truncate(&v["case"].to_string(), 400));
+                    println!("VIOLATION property={id} replay={}", p.display());
+                    1
+                }
+                Confirm::Signal(sig) => {
+                    let p = write_supervisor_outcome(id, tier, seed, &check, &v["case"], &format!("process killed by signal {sig}"), t0.elapsed().as_secs_f64());
+                    println!("VIOLATION property={id} replay={}", p.display());
+                    1
+                }
+                Confirm::Violation(out) => {
+                    let p = write_supervisor_outcome(id, tier, seed, &check, &v["case"], &out, t0.elapsed().as_secs_f64());
+                    println!("{out}");
+                    println!("VIOLATION property={id} replay={}", p.display());
+                    1
+                }
+                Confirm::Passed => {
+                    println!("INCONCLUSIVE property={id} a case exceeded its deadline under load but finished when run alone");
+                    2
+                }
+            };
+        }
+        let sig = st.signal().unwrap_or(0);
+        println!("  child died from signal {sig}; checking the in-flight cases one by one");
+        for slot in 0..hv::core::MAX_SLOTS {
+            let Some(v) = hv::core::read_slot(&dir, slot) else { continue };
+            let check = v["check"].as_str().unwrap_or("?").to_string();
+            match confirm_case(id, &check, &v["case"], Duration::from_secs(240)) {
+                Confirm::Signal(s2) => {
+                    let p = write_supervisor_outcome(id, tier, seed, &check, &v["case"], &format!("process killed by signal {s2} (stack overflow / abort)"), t0.elapsed().as_secs_f64());
+                    println!("  abort confirmed: {}", hv::core::truncate(&v["case"].to_string(), 400));
+                    println!("VIOLATION property={id} replay={}", p.display());
+                    return 1;
+                }
+                Confirm::Timeout => {
+                    let p = write_supervisor_outcome(id, tier, seed, &check, &v["case"], "hang (confirmed alone)", t0.elapsed().as_secs_f64());
+                    println!("VIOLATION property={id} replay={}", p.display());
+                    return 1;
+                }
+                _ => {}
+            }
+        }
+        println!("INCONCLUSIVE property={id} child died from signal {sig} but no in-flight case reproduces it alone");
+        2
+    })();
+    let _ = std::fs::remove_dir_all(&dir);
+    code
+}
 
 fn usage() -> ! {
     eprintln!("usage: hv check <ID> quick|thorough | hv replay <file> | hv worker <...>");
@@ -28,6 +152,12 @@ fn main() {
                 _ => Tier::Quick,
             };
             let tier = if args[3] == "thorough" { Tier::Thorough } else if args[3] == "quick" { Tier::Quick } else { tier };
+            if std::env::var("HV_CHILD").is_err() {
+                exit(supervise(&id, tier, seed));
+            }
+            if let Some(inf) = hv::core::inflight() {
+                inf.spawn_watchdog();
+            }
             let mut run = Run::new(&id, tier, seed);
             if !hv::props::dispatch_run(&id, &mut run) {
                 eprintln!("unknown property {id}");
@@ -35,7 +165,43 @@ fn main() {
             }
             exit(run.finish());
         }
-        "replay" => {
+        "replay" if std::env::var("HV_CHILD").is_err() => {
+            if args.len() < 3 {
+                usage();
+            }
+            let text = std::fs::read_to_string(&args[2]).unwrap_or_else(|e| {
+                eprintln!("cannot read {}: {e}", args[2]);
+                exit(2)
+            });
+            let v: Value = serde_json::from_str(&text).unwrap_or_else(|e| {
+                eprintln!("bad replay file: {e}");
+                exit(2)
+            });
+            let id = v["property"].as_str().unwrap_or("").to_string();
+            let check = v["check"].as_str().unwrap_or("").to_string();
+            match confirm_case(&id, &check, &v["case"], Duration::from_secs(600)) {
+                Confirm::Passed => {
+                    println!("REPLAY-OK property={id} check={check}: the case no longer violates the property");
+                    exit(0)
+                }
+                Confirm::Violation(out) => {
+                    print!("{out}");
+                    println!("VIOLATION property={id} replay={}", args[2]);
+                    exit(1)
+                }
+                Confirm::Signal(sig) => {
+                    println!("  process killed by signal {sig}");
+                    println!("VIOLATION property={id} replay={}", args[2]);
+                    exit(1)
+                }
+                Confirm::Timeout => {
+                    println!("  no result within 600 s (hang)");
+                    println!("VIOLATION property={id} replay={}", args[2]);
+                    exit(1)
+                }
+            }
+        }
+        "replay" | "replay-child" => {
             if args.len() < 3 {
                 usage();
             }
@@ -54,17 +220,14 @@ fn main() {
             let r = hv::core::catch(|| hv::props::dispatch_replay(&id, &check, v["case"].clone(), &mut run));
             match r {
                 Ok(Ok(())) => {
-                    println!("REPLAY-OK property={id} check={check}: the case no longer violates the property");
                     exit(0);
                 }
                 Ok(Err(m)) => {
                     println!("  {m}");
-                    println!("VIOLATION property={id} replay={}", args[2]);
                     exit(1);
                 }
                 Err(p) => {
                     println!("  panic at {}: {}", p.site(), p.message);
-                    println!("VIOLATION property={id} replay={}", args[2]);
                     exit(1);
                 }
             }
